@@ -385,20 +385,21 @@ Section Engine.
   Lemma flow_ops_rel m (s s' : state) :
     keys (s_ops s') = keys (s_ops s) ->
     (forall id o', lookup id (s_ops s') = Some o' ->
-       exists o, lookup id (s_ops s) = Some o /\ qpub (op_packet o') = qpub (op_packet o) /\ ppid (op_packet o') = ppid (op_packet o)) ->
-    s_next_id s' = s_next_id s -> s_ppub s' = s_ppub s -> s_alloc s' = s_alloc s ->
+       exists o, lookup id (s_ops s) = Some o /\ qpub (op_packet o') = qpub (op_packet o) /\
+                 (m = Connected -> ppid (op_packet o') = ppid (op_packet o))) ->
+    s_next_id s' = s_next_id s -> s_ppub s' = s_ppub s -> inc (keys (s_alloc s')) ->
     s_cur s' = s_cur s -> (forall id, In id (s_hq s') -> In id (s_hq s)) -> s_settings s' = s_settings s ->
     flow_m m s -> flow_m m s'.
   Proof.
     intros Hk Hrel Hn Hp Ha Hc Hq Hs [H1 H2 H3 H4 H5 H6]. constructor.
     - unfold ids_ok in *. cbn [fst snd] in *. rewrite Hk, Hn. exact H1.
     - rewrite Hp. exact H2.
-    - rewrite Ha. exact H3.
+    - exact Ha.
     - intros k. rewrite Hc, Hn. apply H4.
     - intros Hm. destruct (H5 Hm) as (st & Hst & Hle). exists st. rewrite Hs, Hp. split; [exact Hst|].
       assert (extra s' <= extra s); [|slia]. unfold extra. rewrite Hc, Hp. destruct (s_cur s) as [c|]; [|slia].
       destruct (lookup c (s_ops s')) as [o'|] eqn:El; [|repeat dm; slia].
-      destruct (Hrel _ _ El) as (o & -> & -> & ->). slia.
+      destruct (Hrel _ _ El) as (o & -> & -> & Hpp). rewrite (Hpp Hm). slia.
     - intros Hoff k Hk'. rewrite Hc in Hk'. assert (Hk2 : s_cur s = Some k \/ In k (s_hq s)) by (destruct Hk'; [left|right; apply Hq]; assumption).
       destruct (H6 Hoff k Hk2) as [Hlt Hcl]. rewrite Hn. split; [exact Hlt|]. intros o' Hl.
       destruct (Hrel _ _ Hl) as (o & Hlo & -> & _). apply Hcl. exact Hlo.
@@ -436,13 +437,13 @@ Section Engine.
     s_cur s' = s_cur s -> (forall id, In id (s_hq s') -> In id (s_hq s)) -> s_settings s' = s_settings s ->
     flow_m m s -> flow_m m s'.
   Proof.
-    intros Hf Ho. apply flow_ops_rel.
+    intros Hf Ho Hn Hp Ha Hc Hq Hs Hfl. apply (flow_ops_rel m s s'); try assumption; [| |rewrite Ha; apply Hfl].
     - rewrite Ho. apply keys_fold_update.
     - intros id o' Hl. rewrite Ho in Hl.
       pose (R := fun a b : op => qpub (op_packet b) = qpub (op_packet a) /\ ppid (op_packet b) = ppid (op_packet a)).
       assert (Hr : forall o, R o o) by (intros; split; reflexivity).
       assert (Hst : forall a b, R a b -> R a (f b)) by (intros a b [A B]; destruct (Hf b) as [C D]; split; congruence).
-      destruct (lookup_fold_update_rel f R ids Hr Hst _ _ _ Hl) as (o & Hlo & Hq & Hp). exists o. auto.
+      destruct (lookup_fold_update_rel f R ids Hr Hst _ _ _ Hl) as (o & Hlo & Hq1 & Hp1). exists o. auto.
   Qed.
 
   Lemma flow_update m (s s' : state) (f : op -> op) id :
